@@ -252,7 +252,7 @@ def run_seed(seed, props):
     """one scratch copy, one load, every check (slimlint -props)"""
     patch = os.path.join(SEEDED, seed, "patch.diff")
     env = dict(os.environ, MUTLINES="400")
-    p = subprocess.run([os.path.join(VERIF, "bin", "mutcheck"), patch] + props, capture_output=True, text=True, env=env)
+    p = subprocess.run([os.path.join(VERIF, "bin", "mutcheck"), patch] + props, capture_output=True, text=True, errors="replace", env=env)
     out = p.stdout + p.stderr
     res = {}
     cur = None
